@@ -412,11 +412,19 @@ def emit_ref(P, info, bundled_rules):
     world, _classes = refgrammar.build_world(info)
     keys = list(world.order)
     idx = {k: n for n, k in enumerate(keys)}
+    # node names of parse trees are a matter of C03, not of what the text denotes: the reference table takes the spelling of
+    # the compiled rule it is paired with (pairing by class and case-insensitive name)
+    spelled = {}
+    for r in bundled_rules:
+        cls = type(r)
+        ns = "core" if cls is P.Rule else refgrammar.ns_of(cls.__module__.split(".")[-1], cls.__name__)
+        spelled.setdefault((ns, r.name.lower()), r.name)
     cid = [0]
     lines = []
     for k in keys:
         r = world.rules[k]
-        lines.append(f'  ⟨"{k[0]}.{r["name"]}", some {refgrammar.lean_expr(r["ast"], idx, cid, top_first=r["first"])}, none⟩')
+        nm = spelled.get(k, r["name"]).replace('"', "'")
+        lines.append(f'  ⟨"{nm}", some {refgrammar.lean_expr(r["ast"], idx, cid, top_first=r["first"])}, none⟩')
     # UNTRUSTED hint: the compiled rules from which no first-match flag can be reached (checked by Abnf.plainOnG)
     bi = {id(r): k for k, r in enumerate(bundled_rules)}
 
